@@ -260,8 +260,14 @@ class RandomShim:
         return self._many('u', shape if shape else None, 0.0, 1.0)
 
     def uniform(self, low=0.0, high=1.0, size=None):
+        if size is None:
+            shp = np.broadcast(np.asarray(A._as_obj(low), dtype=object),
+                               np.asarray(A._as_obj(high), dtype=object)).shape
+            size = shp if shp else None
         u = self._many('u', size, 0.0, 1.0)
-        return low + (high - low) * u
+        lo = A.to_obj(low)
+        hi = A.to_obj(high)
+        return lo + (hi - lo) * u
 
     def normal(self, loc=0.0, scale=1.0, size=None):
         g = self._many('g', size)
